@@ -58,6 +58,8 @@ structure Cfg where
   lastSeqProcessed : Bool := false
   /-- the message validator (settings + data dictionaries) -/
   validator : VCfg := {}
+  /-- EnableNextExpectedMsgSeqNum: the Logons we send carry tag 789, the peer's 789 is evaluated by `handleLogon` -/
+  nextExpected : Bool := false
   deriving Repr, Inhabited
 
 def bsName : Nat → String
@@ -320,14 +322,48 @@ def dropAndReset (s : Sess) : Sess := (s.setToSend []).storeReset
 
 def mkOut (kind : String) (f : Fields) : OutMsg := { kind := kind, seq := 0, f := f }
 
-def logonMsg (s : Sess) (reset : Bool) : OutMsg :=
+/-- tag 789 (NextExpectedMsgSeqNum) of an inbound Logon as `Body.GetInt` reads it (absent and unreadable are alike to the code) -/
+def peerNext (m : InMsg) : Option Int := match getInt m 789 with | .val n => some n | _ => none
+
+def nxTag : Option Int → Fields
+  | some n => [(789, toString n)]
+  | none => []
+
+/-- the Logon of `sendLogonInReplyTo` with `nx` in tag 789 -/
+def logonMsgX (s : Sess) (reset : Bool) (nx : Option Int) : OutMsg :=
   mkOut "A" ([(108, toString s.hb)] ++ (if reset then [(141, "Y")] else [])
-             ++ (if s.cfg.applVer.isEmpty then [] else [(1137, s.cfg.applVer)]))
+             ++ (if s.cfg.applVer.isEmpty then [] else [(1137, s.cfg.applVer)]) ++ nxTag nx)
+
+/-- tag 789 of a Logon sent on our own account (`inReplyTo = nil`: connect, ResetSeqTime): the inbound number we expect next —
+    `NextTargetMsgSeqNum()`, or 1 when the Logon carries 141=Y (`prepMessageForSend` resets the store on its way out).
+    After `fix:` 9b6c1a0; before, `NextTargetMsgSeqNum() + 1` in both cases (`nxOwnOrig`). -/
+def nxOwn (s : Sess) (reset : Bool) : Option Int :=
+  if s.cfg.nextExpected then some (if reset then 1 else s.store.target) else none
+
+def nxOwnOrig (s : Sess) : Option Int := if s.cfg.nextExpected then some (s.store.target + 1) else none
+
+/-- tag 789 of the acceptor's reply: only when the Logon answered carries a readable 789; `NextTargetMsgSeqNum() + 1` —
+    the number expected once the Logon being answered is counted -/
+def nxReply (s : Sess) (m : InMsg) : Option Int :=
+  if s.cfg.nextExpected && (peerNext m).isSome then some (s.store.target + 1) else none
+
+def logonMsg (s : Sess) (reset : Bool) : OutMsg := logonMsgX s reset (nxOwn s reset)
+
+/-- the Logon answering `m` -/
+def logonMsgRe (s : Sess) (reset : Bool) (m : InMsg) : OutMsg := logonMsgX s reset (nxReply s m)
 
 def sendLogonInReplyTo (s : Sess) (reset : Bool) : Sess := dropAndSend s (logonMsg s reset)
 
 /-- sendLogonInReplyTo(reset, msg) with `msg ≠ nil`: the acceptor's answer to a Logon -/
-def sendLogonRe (s : Sess) (reset : Bool) (m : InMsg) : Sess := dropAndSend s ((logonMsg s reset).inReplyTo m)
+def sendLogonRe (s : Sess) (reset : Bool) (m : InMsg) : Sess := dropAndSend s ((logonMsgRe s reset m).inReplyTo m)
+
+/-- the peer's tag 789 is above `n` (EnableNextExpectedMsgSeqNum on, 789 readable) -/
+def nxAbove (cfg : Cfg) (m : InMsg) (n : Int) : Bool :=
+  cfg.nextExpected && (match peerNext m with | some x => decide (x > n) | none => false)
+
+/-- `sendLogonInReplyTo(_, msg)` refuses (RejectLogon) when the peer's 789 is above our next outbound number:
+    "we can't resend what we never sent" -/
+def nxRefuses (s : Sess) (m : InMsg) : Bool := nxAbove s.cfg m s.store.sender
 
 def shouldSendReset (s : Sess) : Bool :=
   if s.cfg.bs < 1 then false
@@ -683,14 +719,73 @@ def logonReply (s : Sess) (m : InMsg) (flag : Bool) : Sess :=
     if flag && s.sentReset && s.st.loggedOn then s else sendLogonRe s flag m
   else s
 
-/-- the end of handleLogon: arm the peer timer, notify, gap check, consume the Logon's number -/
-def logonFinish (s : Sess) (m : InMsg) : Sess × Option LogonErr :=
-  let s := ((s.setSentReset false).emit (.armPeer (1200 * s.hb))).emit .onLogon
+/-- the implied gap fill of handleLogon: `generateSequenceReset(b, e, *msg)` — a SequenceReset-GapFill with PossDupFlag whose
+    header is that of a reply to the Logon (tag 369) -/
+def gapFillRe (s : Sess) (m : InMsg) (b e : Int) : OutMsg := { gapFill b e with last := replyLastOf s m }
+
+theorem nxAbove_off (cfg : Cfg) (m : InMsg) (n : Int) (h : cfg.nextExpected = false) : nxAbove cfg m n = false := by
+  unfold nxAbove; rw [h]; rfl
+theorem nxAbove_absent (cfg : Cfg) (m : InMsg) (n : Int) (h : peerNext m = none) : nxAbove cfg m n = false := by
+  unfold nxAbove; rw [h]; simp
+theorem nxRefuses_off (s : Sess) (m : InMsg) (h : s.cfg.nextExpected = false) : nxRefuses s m = false := nxAbove_off _ m _ h
+theorem nxRefuses_absent (s : Sess) (m : InMsg) (h : peerNext m = none) : nxRefuses s m = false := nxAbove_absent _ m _ h
+
+theorem Fields.has_of_get? (f : Fields) (t : Nat) (v : String) (h : f.get? t = some v) : f.has t = true := by
+  unfold Fields.get? at h
+  unfold Fields.has
+  cases hf : f.find? (·.1 == t) with
+  | none => rw [hf] at h; cases h
+  | some p =>
+    have h1 : (p.1 == t) = true := List.find?_some (p := fun x : Nat × String => x.1 == t) hf
+    exact List.any_eq_true.2 ⟨p, List.mem_of_find?_eq_some hf, h1⟩
+
+/-- handleLogon's evaluation of the peer's tag 789 (only when the Logon has no tag 141 at all): `ns` is our next outbound
+    number the 789 is compared with — after a reset the Logon caused, before our reply.  A readable 789 different from
+    `ns` (it is below: a Logon whose 789 is above has been refused before, `logonRefuses`): a gap fill from the peer's 789 to
+    the number we use next, with and without persistence — nothing is replayed.
+    (After `fix:` eef4b78, fb22495, 9431a2e; the code as it was is `Qfx/Model/SessionNxOrig.lean`.) -/
+def nxEval (s : Sess) (m : InMsg) (ns : Int) : Sess :=
+  if s.cfg.nextExpected && !(m.f.has 141) then
+    match peerNext m with
+    | some n => if n != ns then enqueueAndSend s (gapFillRe s m n s.store.sender) else s
+    | none => s
+  else s
+
+/-- the end of handleLogon: arm the peer timer, notify, the peer's 789, gap check, consume the Logon's number -/
+def logonFinish (s : Sess) (m : InMsg) (ns : Int) : Sess × Option LogonErr :=
+  let s := nxEval (((s.setSentReset false).emit (.armPeer (1200 * s.hb))).emit .onLogon) m ns
   match checkTooHigh s m with
   | some r => (s, some (.rej r))
   | none => (incrTarget s, none)
 
 def logonResetFlag (m : InMsg) : Bool := match getBool m 141 with | .val b => b | _ => false
+
+/-- is the Logon refused (RejectLogon) because its 789 is above our next outbound number?  The acceptor's
+    `sendLogonInReplyTo(_, msg)` does that whenever it is about to answer; the initiator when the Logon has no tag 141
+    (after `fix:` 732dac2; before, an initiator never refused) -/
+def logonRefuses (s : Sess) (m : InMsg) (flag : Bool) : Bool :=
+  (if s.cfg.initiator then !(m.f.has 141) else !(flag && s.sentReset && s.st.loggedOn)) && nxRefuses s m
+
+/-- what handleLogon has done by then: an acceptor has adopted the peer's HeartBtInt -/
+def logonRefused (s : Sess) (m : InMsg) : Sess :=
+  if !s.cfg.initiator && !s.cfg.hbOverride then (match getInt m 108 with | .val h => s.setHb h | _ => s) else s
+
+/-- handleLogon once the Logon has passed the checks: the acceptor's reply (or the refusal), then `logonFinish` with our
+    next outbound number as it is now -/
+def logonTail (s : Sess) (m : InMsg) : Sess × Option LogonErr :=
+  if logonRefuses s m (logonResetFlag m) then (logonRefused s m, some (.rej .rejectLogon))
+  else logonFinish (logonReply s m (logonResetFlag m)) m s.store.sender
+
+/-! the option off (`EnableNextExpectedMsgSeqNum=N`, the default): nothing of the above happens -/
+theorem nxEval_off (s : Sess) (m : InMsg) (ns : Int) (h : s.cfg.nextExpected = false) : nxEval s m ns = s := by
+  unfold nxEval; rw [h]; rfl
+theorem logonRefuses_off (s : Sess) (m : InMsg) (flag : Bool) (h : s.cfg.nextExpected = false) : logonRefuses s m flag = false := by
+  unfold logonRefuses; rw [nxRefuses_off s m h, Bool.and_false]
+theorem logonTail_off (s : Sess) (m : InMsg) (h : s.cfg.nextExpected = false) :
+    logonTail s m = logonFinish (logonReply s m (logonResetFlag m)) m s.store.sender := by
+  unfold logonTail; rw [logonRefuses_off s m _ h]; rfl
+theorem nxOwn_off (s : Sess) (r : Bool) (h : s.cfg.nextExpected = false) : nxOwn s r = none := by unfold nxOwn; rw [h]; rfl
+theorem nxReply_off (s : Sess) (m : InMsg) (h : s.cfg.nextExpected = false) : nxReply s m = none := by unfold nxReply; rw [h]; rfl
 
 def handleLogon (s : Sess) (m : InMsg) : Sess × Option LogonErr :=
   if s.cfg.bs == 5 && !(m.f.has 1137) then (s, some .other) else
@@ -702,7 +797,7 @@ def handleLogon (s : Sess) (m : InMsg) : Sess × Option LogonErr :=
     let s := if resetStore then dropAndReset s else s
     match verifySelect s m false true false with
     | (s, some r) => (s, some (.rej r))
-    | (s, none) => logonFinish (logonReply s m (logonResetFlag m)) m
+    | (s, none) => logonTail s m
 
 def inSessionFixMsgIn (s : Sess) (m : InMsg) : Sess × SState :=
   let k := kindOf m
